@@ -181,7 +181,7 @@ def pairs (s : MH) : List (Nat × Nat) :=
 
 def merge (s o : MH) : Except Err MH := do
   s.checkCompatible o
-  let both := s.abunds.isSome && o.abunds.isSome
+  let both := s.abunds.isSome
   let merged := mergeP s.pairs o.pairs
   let merged := if merged.length > s.num ∧ s.num ≠ 0 then merged.take s.num else merged
   pure { s with mins := merged.map Prod.fst,
